@@ -12,6 +12,9 @@ def judge(case, seq, data, exc, acc) -> None:
     sig = {"cls": case["cls"], "writer": case["writer"], "logical": case["logical"],
            "delimited": case["delimited"]}
     if exc is not None:
+        if case.get("out_of_domain"):
+            acc.counters["refused_out_of_domain"] += 1  # (a statement too big for a table)
+            return
         acc.violation({**sig, "fail": "write-raised", "exc": type(exc).__name__},
                       f"in-domain graph refused: {type(exc).__name__}: {exc} case={case}", case)
         return
@@ -35,17 +38,18 @@ def judge(case, seq, data, exc, acc) -> None:
                           f"round trip differs ({reader}): missing {sorted(expect - set(got), key=repr)} "
                           f"extra {sorted(set(got) - expect, key=repr)} case={case}",
                           {**case, "reader": reader})
-        elif (reader == "flat" and len(got) != len(expect)
+        elif (reader == "flat" and len(got) != len(set(seq))  # (distinct as rdflib terms)
               and case["writer"] not in ("stream_frames_gen", "flat_to_frames", "flat_to_file",
                                          "flat_to_file_default", "stream_frames_list",
                                          "flat_to_frames_iter")):
             acc.violation({**sig, "fail": "duplicates", "reader": reader},
-                          f"flat parser yields {len(got)} statements for {len(expect)} distinct "
+                          f"flat parser yields {len(got)} statements for {len(set(seq))} distinct "
                           f"ones case={case}", {**case, "reader": reader})
 
 
 def shard(job) -> dict:
-    return RR.run_job(job, judge)
+    # (statements too big for a table may be refused; whatever is written must read back)
+    return RR.run_job(job, judge, include_out_of_domain=True)
 
 
 def run(ctx) -> None:
